@@ -54,7 +54,7 @@ def wf_task(h, t):
     last = h.rd(t, TASK, "_last_step_time")[1]
     pre = h.rd(t, TASK, "_pre_scheduling_state")[1]
     return z3.And(
-        z3.Implies(z3.Or(s == SCHEDULED, s == RUNNING, s == PREEMPTED), z3.And(some(rem), us(get(rem)) >= 0)),
+        z3.Implies(z3.Or(s == SCHEDULED, s == RUNNING, s == PREEMPTED, s == EVICTED), z3.And(some(rem), us(get(rem)) >= 0)),
         z3.Implies(s == RUNNING, some(last)),
         z3.Or(pre == VIRTUAL, pre == RELEASED),
     )
